@@ -37,8 +37,10 @@ def cfg_list(e):
         return [{"ids": "auto", "one": True}, {"ids": "auto", "one": False}]
     if n == "TransferFrame.unpack":
         return [{"ft": ft, "iz": iz, "fecf": fe, "n": "auto"} for ft in ("fixed", "variable") for iz in (None, 2) for fe in (None, 2, 4)]
+    if n == "FileDirectivePduBase.parse_fss_field":
+        return [{"large": lg, "idx": i} for lg in (0, 1) for i in (0, 1, 5)]
     if n == "TransferFrameDataField.unpack":
-        return [{"ft": ft, "trunc": tr, "exact": None} for ft in ("fixed", "variable", None) for tr in (False, True)]
+        return [{"ft": ft, "trunc": tr, "exact": ex} for ex in (None, 3, 12) for ft in ("fixed", "variable", None) for tr in (False, True)]
     return [{}]
 
 
